@@ -28,7 +28,7 @@ SemOf(p, s) == IF HasFix(p) THEN SemTableFix(p, s) ELSE IF HasFb(p) THEN SemTabl
 SVals(inp, cell) == [inp |-> [i \in 1..Len(inp) |-> [f \in 1..2 |-> inp[i][f].v]], cell |-> cell]
 
 ModeProps(m) ==
-    CASE m = "pardag" -> {"C16"}
+    CASE m \in {"pardag", "parlru"} -> {"C16"}
       [] m = "parmemo" -> {"C17"}
       [] m \in {"parfix", "parfb", "parnest3"} -> {"C18"}
       [] m = "parpcycle" -> {"C14"}
